@@ -17,3 +17,4 @@ CHECK = {'pkgs': ['core/dutydb'],
  'budget_s': {'quick': 100, 'thorough': 1500}}
 CHECK["race_tests"] = {"core/dutydb": "TestVerifRaceC06"}
 CHECK["assumptions"] = SCHEDX_ASSUME
+CHECK["claim"] += " Fifth session: attester duties that really are in committee 0 (own key = the alias key): conflicting / equal / pubkey-clash / one store with two validators / together with another committee; scenario att-expiry-between-check-and-write: the deadliner on a fake clock moved by a harness thread (the deadline passes, and its report is consumed by another Store, between any two steps of a running Store) with the oracle 'once the deadline has passed, every Store of the duty has returned and one more complete Store has run, nothing of the duty is served'."
